@@ -33,6 +33,10 @@ CONSTANTS MaxPg,      \* model pages 1..MaxPg
           AllowHoles,     \* a growing transaction may leave new pages unwritten (allocated and freed again: SQLite never
                           \* writes them, the file is extended over them)
           FixHoles,       \* TRUE = CommitJournal captures such pages from the file (as repaired, f24d514)
+          AllowFailCommit,\* a committing journal transaction may fail at its publication (the LTX file cannot be renamed into
+                          \* place, or the primary refuses a forwarded commit): SQLite gets an error and rolls the transaction back
+          FixFailedCommit,\* TRUE = such a failure leaves the page checksums untouched (as repaired, bf4ca29); FALSE = as coded
+                          \* before: the checksums of the pages behind the new size are already cleared when the commit fails
           AllowFreeReuse, \* transactions may overwrite free pages without journalling them (SQLite: free-list leaves)
           AllowFromWal,   \* journal-mode switch from WAL back to a rollback journal reachable
           FixModeSwitch,  \* TRUE = creating a journal puts the database in rollback mode (as repaired, fa80c49)
@@ -174,7 +178,8 @@ BeginJ ==
   /\ UNCHANGED <<dvars, lvars, refImg, salts, mx, ckpted, mvars>>
   \* (the domains of M, E and F are written as narrow as their constraints allow: in simulation mode TLC
   \* enumerates every successor of a state before it picks one)
-  /\ \E ns \in 1..MaxPg, out \in {"commit", "rb_early", "rb_spill"}, fin \in FinModes, nosync \in BOOLEAN, toWal \in BOOLEAN :
+  /\ \E ns \in 1..MaxPg, out \in ({"commit", "rb_early", "rb_spill"} \cup (IF AllowFailCommit THEN {"fail_rb"} ELSE {})),
+        fin \in FinModes, nosync \in BOOLEAN, toWal \in BOOLEAN :
      \E M \in SUBSET (1..ns) :
      \E E \in (IF AllowBeyond /\ out = "commit" THEN SUBSET ((ns + 1)..MaxPg) ELSE {{}}),
         F \in (IF AllowFreeReuse /\ out = "rb_spill" THEN SUBSET ((2..CurSize) \ M) ELSE {{}}),
@@ -190,6 +195,8 @@ BeginJ ==
        /\ (E # {} => AllowBeyond /\ out = "commit" /\ \A q \in (Max({CurSize, ns}) + 1)..Max(E) : q \in E \/ q = LockPg)
        /\ (nosync => AllowNoSync)
        /\ (out = "rb_spill" => AllowSpill)
+       \* fail_rb: every step of a committing transaction, then the publication fails and SQLite rolls back
+       /\ (out = "fail_rb" => AllowFailCommit /\ ~nosync /\ ~toWal /\ CurSize > 0)
        \* F: free-list leaf pages the transaction reuses. SQLite neither reads nor journals them (their
        \* content is "don't care"), so a rollback does not restore them: after it the file differs from
        \* the pre-transaction file in exactly these pages (observed with real SQLite, T3 tier). In a
@@ -232,7 +239,7 @@ JSync ==     \* fsync + magic/nRec written into the header, before the first dat
   /\ pc = "j_sync"
   /\ jr' = [jr EXCEPT !.hdr = "valid"]
   /\ pc' = "j_pages"
-  /\ todo' = IF plan.out = "commit" THEN SeqOfSet(plan.M \cup plan.E)
+  /\ todo' = IF plan.out \in {"commit", "fail_rb"} THEN SeqOfSet(plan.M \cup plan.E)
              ELSE <<Head(SeqOfSet(plan.M))>> \o SeqOfSet(plan.F)   \* spill: the first page and the reused free pages reach the file
   /\ UNCHANGED <<dbf, wal, ltxN, ltxLast, lvars, plan, refImg, ops, salts, mx, ckpted, mvars>>
   /\ H("JSync", [x |-> 0])
@@ -250,7 +257,8 @@ JPage ==
   /\ DBWriteEff(Head(todo), IF Head(todo) \in plan.E THEN [NewContent(Head(todo)) EXCEPT !.v = plan.v + 200]
                              ELSE IF Head(todo) \in plan.F THEN FreeContent(Head(todo)) ELSE NewContent(Head(todo)))
   /\ todo' = Tail(todo)
-  /\ pc' = IF Tail(todo) # <<>> THEN "j_pages" ELSE IF plan.out = "commit" THEN "j_final" ELSE "j_rb_trunc"
+  /\ pc' = IF Tail(todo) # <<>> THEN "j_pages" ELSE IF plan.out = "commit" THEN "j_final"
+           ELSE IF plan.out = "fail_rb" THEN "j_fail" ELSE "j_rb_trunc"
   /\ UNCHANGED <<jr, wal, ltxN, ltxLast, psKnown, pageN, pos, mode, woff, wsalt, foff, wchk, fault,
                  plan, refImg, ops, salts, mx, ckpted, mvars>>
   /\ H("JPage", [p |-> Head(todo), x |-> Head(todo) \in plan.E, fr |-> Head(todo) \in plan.F])
@@ -282,6 +290,19 @@ JRbPage ==
   /\ UNCHANGED <<jr, wal, ltxN, ltxLast, psKnown, pageN, pos, mode, woff, wsalt, foff, wchk, fault,
                  plan, refImg, ops, salts, mx, ckpted, mvars>>
   /\ H("JRbPage", [p |-> Head(todo)])
+
+\* CommitJournal fails when it publishes the transaction (rename of the LTX file refused by the OS, forwarded
+\* commit refused by the primary): nothing of the transaction is in the log, the position stays, the journal stays.
+\* As coded before bf4ca29 the checksums of the pages behind the transaction's size were cleared by then.
+JFinalFail ==
+  /\ pc = "j_fail"
+  /\ LET commit == dbf[1].sz
+         r == ResetAfter(pchk, blk, commit)
+     IN IF FixFailedCommit THEN UNCHANGED <<pchk, blk>> ELSE pchk' = r[1] /\ blk' = r[2]
+  /\ pc' = "j_rb_trunc"
+  /\ UNCHANGED <<dbf, jr, wal, ltxN, ltxLast, psKnown, pageN, pos, mode, dirty, woff, wsalt, foff, wchk, fault,
+                 plan, todo, refImg, ops, salts, mx, ckpted, mvars>>
+  /\ H("JFinalFail", [fin |-> plan.fin])
 
 JournalGone == IF plan.fin = "DELETE" THEN NoJr
                ELSE IF plan.fin = "TRUNCATE" THEN [NoJr EXCEPT !.ex = TRUE]
@@ -622,7 +643,7 @@ Litter ==
   /\ UNCHANGED <<dvars, lvars, pc, plan, todo, refImg, salts, mx, ckpted, mvars>>
   /\ H("Litter", [x |-> 0])
 
-Step == \/ Crash \/ Retain \/ Litter \/ DropDB \/ BeginJ \/ JRmWal \/ JCreate \/ JSync \/ JPage \/ JRbTrunc \/ JRbPage \/ JFinal \/ JTrunc
+Step == \/ Crash \/ Retain \/ Litter \/ DropDB \/ BeginJ \/ JRmWal \/ JCreate \/ JSync \/ JPage \/ JRbTrunc \/ JRbPage \/ JFinalFail \/ JFinal \/ JTrunc
         \/ BeginW \/ WHdr \/ WFrame \/ WEnd \/ Ckpt \/ LCkpt
 \* Emit = "edge": one behaviour per explored TRANSITION into an idle state (the path on which TLC first
 \* reached the source state, plus this step), not one per distinct idle state: two ways of reaching the same
